@@ -6,7 +6,9 @@ Specs (all JSON):
          Mpsa / Biot / Tpsa document ("tacit assumption") that 2-d grids lie in the xy-plane
          and read the first two components of normals and coordinates.
   lame   {"mu": m, "lmbda": l}            constant isotropic stiffness (Lame parameters)
-  bc     {"mode": "all_dir"|"mix"|"one_dir"|"all_neu", "pattern": [0/1,...], "anchor": int}
+  bc     {"mode": "all_dir"|"mix"|"one_dir"|"few_dir"|"all_neu", "pattern": [0/1,...], "anchor": int}
+         ("few_dir" = "one_dir" used together with min_dir_rank: the fewest Dirichlet faces that
+         remove the rigid-body modes)
          boundary face number i (order of g.get_all_boundary_faces(), started at the anchor
          face) *wants* to be Neumann when pattern[i % len] == 1.  The anchor face
          (anchor % n_boundary) is Dirichlet unless mode == "all_neu".  In 3-d (or when
@@ -38,6 +40,13 @@ def mech_grid_spec(draw, poly=False, max_amp=0.15, max_n=4, max_n3=2, dims=(2, 3
     dim = draw(st.sampled_from(list(dims)))
     s = draw(grid_spec(dims=(dim,), poly=poly, max_amp=max_amp, max_n=max_n, max_n3=max_n3, rigid=(dim == 3),
                        affine=True, gmsh=gmsh))
+    if s["kind"] == "gmsh":
+        # bound the number of simplices (cost of the vector discretisations grows quickly): aspect ratio
+        # of the box <= 1.6 and, in 3-d, mesh size >= 0.6 of the shortest side (<= ~300 tetrahedra)
+        m = min(s["phys"])
+        s["phys"] = [min(p, 1.6 * m) for p in s["phys"]]
+        if dim == 3:
+            s["h"] = max(s["h"], 0.6)
     return s
 
 
@@ -53,7 +62,7 @@ def vbc_spec(draw, modes=("mix", "mix", "mix", "all_dir", "one_dir")):
     anchor = draw(st.integers(0, 10**6))
     if mode == "all_dir":
         return {"mode": mode, "pattern": [0], "anchor": anchor}
-    if mode in ("one_dir", "all_neu"):
+    if mode in ("one_dir", "few_dir", "all_neu"):
         return {"mode": mode, "pattern": [1], "anchor": anchor}
     pat = draw(st.lists(st.integers(0, 1), min_size=2, max_size=PATTERN_LEN))
     return {"mode": mode, "pattern": pat, "anchor": anchor}
@@ -96,10 +105,28 @@ def face_node_sets(g, faces):
     return [frozenset(int(k) for k in fn.indices[fn.indptr[f]:fn.indptr[f + 1]]) for f in faces]
 
 
-def neumann_mask(bs, g, edge_rule=None) -> np.ndarray:
+def _spread(xc, diam) -> np.ndarray:
+    """Singular values of the centred point set xc (3, n), relative to diam."""
+    if xc.shape[1] < 2:
+        return np.zeros(3)
+    d = (xc[:, 1:] - xc[:, [0]]) / diam
+    sv = np.linalg.svd(d, compute_uv=False)
+    return np.concatenate([sv, np.zeros(3)])[:3]
+
+
+def neumann_mask(bs, g, edge_rule=None, min_dir_rank=0, min_cell_rank=0) -> np.ndarray:
     """Boolean mask over all faces: True on Neumann boundary faces (all components).
 
-    edge_rule=None -> applied for 3-d grids only (the C13 admissibility class)."""
+    edge_rule=None -> applied for 3-d grids only (the C13 admissibility class).
+    min_dir_rank=r > 0: Neumann faces (in the order started at the anchor face) are turned into
+    Dirichlet faces, only where that helps, until the Dirichlet face centres affinely span r
+    dimensions (r-th singular value of the centred centres >= 0.15 boundary diameter): r = dim-1
+    removes the rigid-body modes, i.e. makes a *solve* with these conditions well posed.
+    min_cell_rank=r > 0: the same requirement cell by cell for the centres of the cell's
+    non-Neumann faces (interior + Dirichlet), relative to the cell size: a cell (or, for a
+    two-point scheme, any patch) held by faces whose centres are a single point / collinear can
+    hinge about them, which makes the two-point stress system singular although the continuous
+    problem is well posed (cf. the remark on solvability in tests/numerics/fv/test_tpsa.py)."""
     bf = g.get_all_boundary_faces()
     nb = bf.size
     pat = np.asarray(bs["pattern"], dtype=int)
@@ -113,7 +140,7 @@ def neumann_mask(bs, g, edge_rule=None) -> np.ndarray:
     m = np.zeros(g.num_faces, dtype=bool)
     if not edge_rule:
         m[bf[order[want]]] = True
-        return m
+        return _raise_cell_rank(g, _raise_dirichlet_rank(g, m, bf, order, min_dir_rank), min_cell_rank)
     nodes = face_node_sets(g, bf)
     # greedy: accept a wish only if the face shares < 2 nodes with every accepted face
     node_to_acc = {}
@@ -130,7 +157,56 @@ def neumann_mask(bs, g, edge_rule=None) -> np.ndarray:
         m[bf[k]] = True
         for v in nodes[k]:
             node_to_acc.setdefault(v, []).append(k)
-    return m
+    return _raise_cell_rank(g, _raise_dirichlet_rank(g, m, bf, order, min_dir_rank), min_cell_rank)
+
+
+def _raise_dirichlet_rank(g, neu, bf, order, min_dir_rank, thresh=0.15):
+    if min_dir_rank <= 0:
+        return neu
+    xb = g.face_centers[:, bf]
+    diam = float(np.linalg.norm(xb.max(axis=1) - xb.min(axis=1)))
+    dir_pos = [int(k) for k in order if not neu[bf[k]]]  # positions in bf of Dirichlet faces
+    have = int(np.sum(_spread(xb[:, dir_pos], diam) >= thresh))
+    for k in order:
+        if have >= min_dir_rank:
+            break
+        if not neu[bf[k]]:
+            continue
+        new = int(np.sum(_spread(xb[:, dir_pos + [int(k)]], diam) >= thresh))
+        if new > have:
+            neu[bf[k]] = False
+            dir_pos.append(int(k))
+            have = new
+    if have < min_dir_rank:  # cannot happen for a grid with a non-degenerate boundary; be safe
+        neu[:] = False
+    return neu
+
+
+def _raise_cell_rank(g, neu, min_cell_rank, thresh=0.15):
+    if min_cell_rank <= 0 or not neu.any():
+        return neu
+    cf = g.cell_faces.tocsc()
+    for c in range(g.num_cells):
+        f = cf.indices[cf.indptr[c]:cf.indptr[c + 1]]
+        if not neu[f].any():
+            continue
+        xf = g.face_centers[:, f]
+        diam = float(np.linalg.norm(xf.max(axis=1) - xf.min(axis=1)))
+        held = [int(k) for k in f if not neu[k]]
+        have = int(np.sum(_spread(g.face_centers[:, held], diam) >= thresh))
+        for k in f:
+            if have >= min_cell_rank:
+                break
+            if not neu[k]:
+                continue
+            new = int(np.sum(_spread(g.face_centers[:, held + [int(k)]], diam) >= thresh))
+            if new > have:
+                neu[k] = False
+                held.append(int(k))
+                have = new
+        if have < min_cell_rank:
+            neu[f] = False
+    return neu
 
 
 def neumann_faces_share_edge(g, neu_mask) -> bool:
@@ -144,12 +220,12 @@ def neumann_faces_share_edge(g, neu_mask) -> bool:
     return False
 
 
-def build_vbc(bs, g, edge_rule=None):
+def build_vbc(bs, g, edge_rule=None, min_dir_rank=0, min_cell_rank=0):
     """pp.BoundaryConditionVectorial with per-face Dirichlet / Neumann types; returns
     (bc, is_dir mask, is_neu mask) over faces."""
     import porepy as pp
 
-    neu = neumann_mask(bs, g, edge_rule)
+    neu = neumann_mask(bs, g, edge_rule, min_dir_rank, min_cell_rank)
     bfm = np.zeros(g.num_faces, dtype=bool)
     bfm[g.get_all_boundary_faces()] = True
     is_dir = bfm & ~neu
